@@ -283,9 +283,9 @@ def probe_source(ty, with_lits):
     return "\n".join(src), fns
 
 
-def glue_differential(ctx, tys, cfgs, size, with_lits=True):
+def glue_differential(ctx, tys, cfgs, size, with_lits=True, tag=""):
     """probe contracts through the full compiler, executed on pyrevm, vs arith_spec computed in Coq."""
-    rnd = ctx.rng("glue")
+    rnd = ctx.rng("glue" + tag)
     grids = {ty: type_grid(ty, rnd, size) for ty in tys}
     imports = COQ_PRELUDE
     for i, ty in enumerate(tys):
@@ -347,7 +347,7 @@ def glue_differential(ctx, tys, cfgs, size, with_lits=True):
                 g["runs"].append((cfg, obs, datas, src))
     keys = list(groups)
     rows = [{"spec": groups[k]["spec"], "multi": [r[1] for r in groups[k]["runs"]]} for k in keys]
-    res = compare_rows(imports, rows, "c03glue", shard=60)
+    res = compare_rows(imports, rows, "c03glue" + tag, shard=60)
     failing = []
     for (ty, fn), (sm, _) in zip(keys, res):
         g = groups[(ty, fn)]
@@ -1404,7 +1404,16 @@ def run_phases(ctx, phases, order, workers=3):
         _, calls, corr, extra, samples, ret = r
         for kind, nm, detail, key in calls:
             ctx.violation(kind, nm, detail, key=key)
-        ctx.corr.update(corr)
+        for k, v in corr.items():
+            o = ctx.corr.get(k)
+            if isinstance(o, int) and isinstance(v, int) and not isinstance(o, bool):
+                ctx.corr[k] = o + v                       # counters of a phase that was split (glue sweeps)
+            elif isinstance(o, list) and isinstance(v, list):
+                ctx.corr[k] = sorted(set(o) | set(v))
+            elif isinstance(o, dict) and isinstance(v, dict):
+                ctx.corr[k] = {kk: o.get(kk, 0) + v.get(kk, 0) for kk in sorted(set(o) | set(v))}
+            else:
+                ctx.corr[k] = v
         ctx.extra.update(extra)
         ctx.samples.extend(samples)
         rets.append(ret)
@@ -1635,7 +1644,7 @@ def run(ctx):
             # (then Search over the whole family)
             if b["ok"]:
                 only = set(tys[:5] + tys[-1:]) if ctx.tier == "quick" else None
-                frac = 0.15 if ctx.tier == "quick" else 0.5
+                frac = 0.12 if ctx.tier == "quick" else 0.5
                 force = ()
             else:
                 # Search: the templates that differ from the proved model (all of them if Coq cannot tell), plus the
@@ -1678,7 +1687,7 @@ def run(ctx):
             if not templ or not b0["ok"]:
                 continue
             if b["ok"]:
-                frac, force = (0.035 if ctx.tier == "quick" else 0.5), ()
+                frac, force = (0.03 if ctx.tier == "quick" else 0.5), ()
             else:
                 bad = mismatching_pows(kind)
                 ctx.log(f"search pow {kind}: {None if bad is None else len(bad)} templates differ from the model / have a wrong bound")
@@ -1713,7 +1722,7 @@ def run(ctx):
             if not templ or not b0["ok"]:
                 continue
             if b["ok"]:
-                frac, force = (0.025 if ctx.tier == "quick" else 0.6), ()
+                frac, force = (0.02 if ctx.tier == "quick" else 0.5), ()
             else:
                 bad = mismatching_unsafes(kind)
                 ctx.log(f"search unchecked {kind}: {None if bad is None else len(bad)} templates differ from the model")
@@ -1783,7 +1792,7 @@ def run(ctx):
         # ---- bytestring -> word conversion templates (memory operand)
         if bfam and b0["ok"]:
             if bbconv["ok"]:
-                frac, force = (0.012 if ctx.tier == "quick" else 0.2), None
+                frac, force = (0.01 if ctx.tier == "quick" else 0.15), None
             else:
                 force = mismatching_bconverts()
                 ctx.log(f"search bytes-convert: {None if force is None else len(force)} templates differ from the model")
@@ -1820,7 +1829,7 @@ def run(ctx):
             if not templ or not b0["ok"]:
                 continue
             if b["ok"]:
-                frac, force = (0.012 if ctx.tier == "quick" else 0.15), ()
+                frac, force = (0.01 if ctx.tier == "quick" else 0.15), ()
             else:
                 bad = mismatching_converts(kind)
                 ctx.log(f"search convert {kind}: {None if bad is None else len(bad)} templates differ from the model")
@@ -1891,35 +1900,38 @@ def run(ctx):
 
         return found, total
 
-    def ph_glue(ctx):
-        found, total = False, 0
-        if ctx.tier == "quick":
-            n, gfail = glue_differential(ctx, tys, quick_glue_configs(), 9)
-        else:
-            # all 65 types under the four most different pipelines, the boundary types under the covering configuration
-            # set (with literal / pow / guard probes), and 5 of them under every configuration (base probes only)
-            n, gfail = glue_differential(ctx, tys, quick_glue_configs(), 12)
-            qt = choose_types(report_quick(ctx), all_tys)
-            n1, gfail1 = glue_differential(ctx, qt, configs("quick"), 9)
-            deep = [(32, False, False), (32, True, False), (16, True, False), (17, True, False), (21, True, True)]
-            n2, gfail2 = glue_differential(ctx, deep, configs("thorough"), 9, with_lits=False)
-            n += n1 + n2
-            gfail += gfail1 + gfail2
-        total += n
-        for f in gfail[:8]:
-            found = True
-            ctx.violation("failing-input", f"{f['type']} {f['function']} under {f['config']} is not exact-or-revert", f,
-                          key=f"glue:{f['function']}:{f['type']}:{f['config']}")
-        ctx.log(f"glue differential done {time.time()-t0:.0f}s")
-
-        return found, total
+    def glue_part(part):
+        """thorough runs the three glue sweeps as separate phases (they dominate the wall time)"""
+        def ph(ctx):
+            found, total = False, 0
+            if part == 0 and ctx.tier == "quick":
+                n, gfail = glue_differential(ctx, tys, quick_glue_configs(), 9)
+            elif part == 0:
+                # all 65 types under the four most different pipelines
+                n, gfail = glue_differential(ctx, tys, quick_glue_configs(), 12)
+            elif part == 1:
+                # the boundary types under the covering configuration set (with literal / pow / guard probes)
+                qt = choose_types(report_quick(ctx), all_tys)
+                n, gfail = glue_differential(ctx, qt, configs("quick"), 9, tag="q")
+            else:
+                # 5 types under every configuration (base probes only)
+                deep = [(32, False, False), (32, True, False), (16, True, False), (17, True, False), (21, True, True)]
+                n, gfail = glue_differential(ctx, deep, configs("thorough"), 9, with_lits=False, tag="d")
+            total += n
+            for f in gfail[:8]:
+                found = True
+                ctx.violation("failing-input", f"{f['type']} {f['function']} under {f['config']} is not exact-or-revert", f,
+                              key=f"glue:{f['function']}:{f['type']}:{f['config']}")
+            ctx.log(f"glue differential {part} done {time.time()-t0:.0f}s")
+            return found, total
+        return ph
 
     def ph_builtins(ctx):
         found, total = False, 0
         # ---- shift / abs / addmod / mulmod / pow_mod256 / ~ templates, flag conversions for every member count
         if bltfam and b0["ok"]:
             if bblt["ok"]:
-                frac, force = (0.03 if ctx.tier == "quick" else 0.5), None
+                frac, force = (0.025 if ctx.tier == "quick" else 0.5), None
             else:
                 force = mismatching_builtins()
                 ctx.log(f"search builtins: {None if force is None else len(force)} templates differ from the model")
@@ -1943,7 +1955,7 @@ def run(ctx):
             for kind in ("legacy", "venom"):
                 templ = bltfam["flag_" + kind]
                 if bblt["ok"]:
-                    frac, force = (0.02 if ctx.tier == "quick" else 0.3), ()
+                    frac, force = (0.015 if ctx.tier == "quick" else 0.3), ()
                 else:
                     bad = mismatching_flag_converts(kind)
                     ctx.log(f"search flag converts {kind}: {None if bad is None else len(bad)} templates differ from the model")
@@ -1987,8 +1999,11 @@ def run(ctx):
     # independent phases, run in forked children (longest first); their violations and counters are replayed in the
     # order below, so the report does not depend on scheduling
     phases = [("templates", ph_templates), ("pow", ph_pow), ("unchecked", ph_unchecked), ("clamps", ph_clamps),
-              ("bytesconv", ph_bytesconv), ("builtins", ph_builtins), ("convert", ph_convert), ("glue", ph_glue)]
-    rets = run_phases(ctx, phases, order=("glue", "bytesconv", "convert", "unchecked", "builtins", "pow", "templates", "clamps"))
+              ("bytesconv", ph_bytesconv), ("builtins", ph_builtins), ("convert", ph_convert), ("glue", glue_part(0))]
+    if ctx.tier != "quick":
+        phases += [("glue1", glue_part(1)), ("glue2", glue_part(2))]
+    rets = run_phases(ctx, phases, order=("glue", "glue1", "glue2", "unchecked", "bytesconv", "convert", "builtins", "templates", "pow",
+                                          "clamps"))
     found = any(r[0] for r in rets)
     total = sum(r[1] for r in rets)
     ctx.log(f"differentials done {time.time()-t0:.0f}s")
